@@ -547,6 +547,41 @@ func (c11) Gen(rs uint64, tier string, race bool) interface{} {
 		return c
 	}
 	t := c11Templates[r.Intn(len(c11Templates))]
+	if r.Chance(0.012) {
+		// more than a thousand sequences (a size at which an implementation may switch to another code path), the
+		// one residue that decides the alphabet in a single row; as one alignment and as a stream of two
+		rows := r.Pick(1001, 1024, 1200, 1500)
+		var bn, bs []string
+		odd := r.Intn(rows)
+		for i := 0; i < rows; i++ {
+			b := make([]byte, 8)
+			for k := range b {
+				b[k] = "ACGT"[r.Intn(4)]
+			}
+			if i == odd {
+				b[r.Intn(8)] = 'E'
+			}
+			bn = append(bn, fmt.Sprintf("Seq%04d", i))
+			bs = append(bs, string(b))
+		}
+		c.Files["nt.fa"] = fastaOf(bn, bs)
+		c.Files["nt.phy"] = phylipOf(bn, bs) + phylipOf(bn, bs)
+		c.Files["other.fa"], c.Files["other2.fa"] = c.Files["nt.fa"], c.Files["nt.fa"]
+		quick := []string{"reformat nexus", "reformat fasta", "reformat phylip", "stats", "stats alphabet", "shuffle seqs", "sample seqs", "shuffle sites", "mutate snvs", "sort", "dedup", "stats char", "consensus", "subset", "sample sites", "shuffle swap"}
+		for {
+			t = c11Templates[r.Intn(len(c11Templates))]
+			ok := false
+			for _, q := range quick {
+				ok = ok || t.key == q
+			}
+			if ok {
+				break
+			}
+		}
+		if t.in == "aa" {
+			t.in = "nt"
+		}
+	}
 	c.Key = t.key
 	c.Seeded = t.seeded
 	in := "-i nt.fa"
